@@ -6,6 +6,14 @@ BASE = "cd /repo && /venv/bin/python -m pytest -ra -q -p no:cacheprovider --time
 
 # id -> (engine, level, technique, level text, level note, design ref)
 CHECKS = {
+ "C10": ("HX", "model_checking",
+         "explicit-state BFS over operation histories of a real Stewart platform (pickle snapshots, canonical state hashing, from-scratch replay) for subsets of the four validation switches, with coherence and every enabled constraint recomputed independently after every call",
+         "31-operation alphabet {IK to 11 in/out-of-workspace and edge targets, FK x4 length vectors x both solvers, reverse FK, move x2, spinCustom, validate x2, inverseJacobian, staticForces, carryMassCalc, scripted randomPos} on 2 geometries (one on a rotated, offset base) x 6 (quick) / 16 (thorough) switch subsets, fresh and re-spun starts, depth 2 (quick) / 3 (thorough): every call returns, joints/lengths/relative transform coherent to 1e-9, valid => all enabled constraints hold, pure queries leave both plates unchanged, un-invert preserves leg lengths.",
+         "Depth <= 3 (not the 25 of the quantifier text); FK answers and corrective actions are environment answers (checked, not predicted); FK accuracy itself is C09's. Allowance for rotation angles in (0,1e-6] (the exponential's cut-off).", "DESIGN 4/C10"),
+ "C17": ("LX", "exploration",
+         "bounded-exhaustive enumeration of all 47 @jit kernels x input lattices x 5 array layouts and of every public tm/Arm/SP entry point for every link/joint index, executed in three fresh processes (compiled, NUMBA_BOUNDSCHECK=1, interpreter) whose per-case digests are compared",
+         "27 932 (quick) / 72 763 (thorough) cases per mode: an IndexError or any exception in a checked mode where the compiled mode returned, or any value difference (1e-12; solver kernels 1e-9) between modes, is a violation; post-call contents of arguments and their parent arrays are part of the digest, so stray writes show up as value differences.",
+         "Negative indices wrap legally in both checked modes; layouts the explicit signatures reject are counted, not failed; iterative solver entry points are value-compared only between the two compiled modes.", "DESIGN 4/C17"),
  "C02": ("LX", "exploration",
          "bounded-exhaustive differential enumeration: for each of the 47 shared functions the complete (quick: deterministically strided) product of argument palettes is run through the port and through the vendored reference library, results compared by shape and value",
          "Rigid-body algebra on the C01 lattices (incl. non-members near the membership thresholds), all chains J^n for n <= 3 (n = 4 complete in thorough) and windows to 7 joints for FK/Jacobians/IK/dynamics, time scalings, joint/screw/Cartesian trajectories N = 2..12, dynamics trajectories and simulated control; 'never raises where the reference returns'; IK: success meets tolerances and both solvers agree where sigma_min >= 0.05.",
